@@ -27,14 +27,19 @@ def forest_observation(forest, enum_k=ENUM_K):
     count = {"loop": False, "cap": 0, "res": [0, 0, 0, 0], "sol": 0, "amb": 0, "big": "0"}
     enum = {"done": False, "lazy": [], "nonlazy": [], "again": [], "iter": [], "first": [], "oob": []}
     try:
-        n = len(forest)
+        try:
+            n = len(forest)
+        except OverflowError:
+            # more trees than a Python len() can report (sys.maxsize): the language's limit, not a reply of parglare; the count is
+            # then read from Forest.solutions, which len() returns
+            n = forest.solutions
         count.update(cap=real.capped_int(n), res=real.residues(n), sol=real.capped_int(forest.solutions), big=str(n))
         count["amb"] = forest.ambiguities
     except real.LoopError:
         count["loop"] = True
         n = None
     if n is not None:
-        enum["oob"] = [probe_index(forest, i) for i in (n, n + 1, 2 * n + 3, 10**12)]
+        enum["oob"] = [probe_index(forest, i) for i in (n, n + 1, 2 * n + 3, n + 10**12)]
         if n <= enum_k:
             enum["lazy"] = [tkey(forest[i]) for i in range(n)]
             enum["nonlazy"] = [tkey(forest.get_nonlazy_tree(i)) for i in range(n)]
@@ -92,7 +97,7 @@ def grammar_cases(job):
     """Worker entry: one grammar, several table kinds and inputs.
     job = {g, inputs:[str], tables:[..], ws, consume, trace, opts}"""
     g = job["g"]
-    text = gen.gtext(g)
+    text = gen.gtext(g, job.get("extra", ""))
     out = []
     ws = job.get("ws", "\n\r\t ")
     for tables in job.get("tables", ["LALR"]):
